@@ -243,6 +243,31 @@ PathT: TypeAlias = list[Union[int, str, "PathToken"]]
 RE_PROPERTY = re.compile(r"[\u0080-\uFFFFa-zA-Z_][\u0080-\uFFFFa-zA-Z0-9_-]*")
 
 
+# Words that are not read as the name of a variable when they stand alone.
+RESERVED_WORDS = frozenset(
+    [
+        "true",
+        "false",
+        "and",
+        "or",
+        "in",
+        "not",
+        "contains",
+        "nil",
+        "null",
+        "if",
+        "else",
+        "with",
+        "required",
+        "as",
+        "for",
+        "empty",
+        "blank",
+        "continue",
+    ]
+)
+
+
 def _quote_segment(segment: str) -> str:
     """Return a string literal for the raw text of a quoted path segment.
 
@@ -271,11 +296,25 @@ class PathToken(TokenT):
     source: str = field(repr=False)
 
     def __str__(self) -> str:
+        return self._str(nested=False)
+
+    def _str(self, *, nested: bool) -> str:
         it = iter(self.path)
-        buf = [str(next(it))]
+        root = next(it)
+        if isinstance(root, str):
+            # A root that does not read as the name of a variable needs brackets.
+            # Inside brackets, every word is the name of a variable.
+            if RE_PROPERTY.fullmatch(root) and (nested or root not in RESERVED_WORDS):
+                buf = [root]
+            else:
+                buf = [f"[{_quote_segment(root)}]"]
+        elif isinstance(root, PathToken):
+            buf = [f"[{root._str(nested=True)}]"]
+        else:
+            buf = [f"[{root}]"]
         for segment in it:
             if isinstance(segment, PathToken):
-                buf.append(f"[{segment}]")
+                buf.append(f"[{segment._str(nested=True)}]")
             elif isinstance(segment, str):
                 if RE_PROPERTY.fullmatch(segment):
                     buf.append(f".{segment}")
